@@ -1,3 +1,263 @@
+// families CH (4) and TK (5): see coq/Run/Adapters.v
 use crate::common::*;
-pub fn run_chain(_c: &mut Cur, _out: &mut Vec<i128>) {}
-pub fn run_take(_c: &mut Cur, _out: &mut Vec<i128>) {}
+use fixed_buffer::*;
+use std::io::{Read, Write};
+
+fn enc_unit(out: &mut Vec<i128>, r: &std::io::Result<()>) {
+    match r {
+        Ok(()) => out.push(0),
+        Err(e) => {
+            out.push(1);
+            out.push(code_of(e.kind()))
+        }
+    }
+}
+fn tail_obs(out: &mut Vec<i128>, first: Option<&ScriptReader>, rw: &ScriptRW) {
+    out.push(-6);
+    match first {
+        Some(f) => {
+            out.push(f.pos as i128);
+            out.push(f.log.len() as i128);
+            out.extend(f.log.iter().map(|x| *x as i128));
+        }
+        None => {
+            out.push(0);
+            out.push(0);
+        }
+    }
+    out.push(-6);
+    out.push(rw.r.pos as i128);
+    out.push(rw.r.log.len() as i128);
+    out.extend(rw.r.log.iter().map(|x| *x as i128));
+    out.push(-7);
+    out.push(rw.w.log.len() as i128);
+    out.extend(rw.w.log.iter());
+}
+
+enum Op {
+    Read(usize),
+    Write(Vec<u8>),
+    Flush,
+}
+fn parse_ops(c: &mut Cur) -> Vec<Op> {
+    let mut v = Vec::new();
+    while !c.done() {
+        match c.next() {
+            0 => v.push(Op::Read(c.next() as usize)),
+            1 => v.push(Op::Write(c.take_list())),
+            _ => v.push(Op::Flush),
+        }
+    }
+    v
+}
+
+// run one op against anything that is Read (+ optionally Write); the adapter borrows the inner objects,
+// so it is re-created around every op from explicit state where needed (has_first / remaining are threaded by hand
+// only for std; the crate's adapters keep their own state, so they live across ops inside a scope)
+pub fn run_chain(c: &mut Cur, out: &mut Vec<i128>) {
+    let variant = c.next();
+    let s1 = c.take_list();
+    let sc1 = c.take_script();
+    let s2 = c.take_list();
+    let sc2 = c.take_script();
+    let ws = c.take_wscript();
+    let ops = parse_ops(c);
+    if variant == 2 {
+        chain_variant(0, s1.clone(), sc1.clone(), s2.clone(), sc2.clone(), ws.clone(), &ops, out);
+        out.push(-8);
+        chain_variant(1, s1, sc1, s2, sc2, ws, &ops, out);
+    } else {
+        chain_variant(variant, s1, sc1, s2, sc2, ws, &ops, out);
+    }
+}
+#[allow(clippy::too_many_arguments)]
+fn chain_variant(variant: u64, s1: Vec<u8>, sc1: std::collections::VecDeque<(u64, u64, u64)>, s2: Vec<u8>,
+                 sc2: std::collections::VecDeque<(u64, u64, u64)>, ws: std::collections::VecDeque<(u64, u64)>, ops: &[Op], out: &mut Vec<i128>) {
+    let mut first = ScriptReader::new(s1, sc1);
+    let mut rw = ScriptRW { r: ScriptReader::new(s2, sc2), w: ScriptWriter::new(ws) };
+    // the adapters hold &mut to the inner objects for their whole life; observations of the inner objects between
+    // ops therefore go through raw snapshots taken by the scripted objects themselves (shared cells)
+    let firstc = std::cell::RefCell::new(&mut first);
+    let rwc = std::cell::RefCell::new(&mut rw);
+    struct F<'a, 'b>(&'a std::cell::RefCell<&'b mut ScriptReader>);
+    impl<'a, 'b> Read for F<'a, 'b> {
+        fn read(&mut self, d: &mut [u8]) -> std::io::Result<usize> {
+            self.0.borrow_mut().read(d)
+        }
+    }
+    struct W<'a, 'b>(&'a std::cell::RefCell<&'b mut ScriptRW>);
+    impl<'a, 'b> Read for W<'a, 'b> {
+        fn read(&mut self, d: &mut [u8]) -> std::io::Result<usize> {
+            self.0.borrow_mut().read(d)
+        }
+    }
+    impl<'a, 'b> Write for W<'a, 'b> {
+        fn write(&mut self, d: &[u8]) -> std::io::Result<usize> {
+            self.0.borrow_mut().write(d)
+        }
+        fn flush(&mut self) -> std::io::Result<()> {
+            self.0.borrow_mut().flush()
+        }
+    }
+    let mut f = F(&firstc);
+    let mut w = W(&rwc);
+    let clear = || {
+        firstc.borrow_mut().log.clear();
+        rwc.borrow_mut().r.log.clear();
+        rwc.borrow_mut().w.log.clear();
+    };
+    if variant == 0 {
+        let mut chain = ReadWriteChain::new(&mut f, &mut w);
+        for op in ops {
+            clear();
+            out.push(MOP);
+            match op {
+                Op::Read(k) => {
+                    let mut d = vec![0xDDu8; *k];
+                    let r = std::panic::catch_unwind(std::panic::AssertUnwindSafe(|| chain.read(&mut d)));
+                    match r {
+                        Ok(q) => {
+                            enc_io_usize(out, &q);
+                            enc_bytes(out, &d);
+                        }
+                        Err(_) => out.push(PANIC),
+                    }
+                }
+                Op::Write(data) => {
+                    let r = std::panic::catch_unwind(std::panic::AssertUnwindSafe(|| chain.write(data)));
+                    match r {
+                        Ok(q) => enc_io_usize(out, &q),
+                        Err(_) => out.push(PANIC),
+                    }
+                }
+                Op::Flush => {
+                    let r = std::panic::catch_unwind(std::panic::AssertUnwindSafe(|| chain.flush()));
+                    match r {
+                        Ok(q) => enc_unit(out, &q),
+                        Err(_) => out.push(PANIC),
+                    }
+                }
+            }
+            let fb = firstc.borrow();
+            let rb = rwc.borrow();
+            tail_obs(out, Some(&**fb), &**rb);
+        }
+    } else {
+        let mut chain = Read::chain(&mut f, &mut w);
+        for op in ops {
+            let k = match op { Op::Read(k) => k, _ => continue };
+            clear();
+            out.push(MOP);
+            {
+                let mut d = vec![0xDDu8; *k];
+                let r = std::panic::catch_unwind(std::panic::AssertUnwindSafe(|| chain.read(&mut d)));
+                match r {
+                    Ok(q) => {
+                        enc_io_usize(out, &q);
+                        enc_bytes(out, &d);
+                    }
+                    Err(_) => out.push(PANIC),
+                }
+            }
+            let fb = firstc.borrow();
+            let rb = rwc.borrow();
+            tail_obs(out, Some(&**fb), &**rb);
+        }
+    }
+}
+
+pub fn run_take(c: &mut Cur, out: &mut Vec<i128>) {
+    let variant = c.next();
+    let limit = c.next();
+    let s2 = c.take_list();
+    let sc2 = c.take_script();
+    let ws = c.take_wscript();
+    let ops = parse_ops(c);
+    if variant == 2 {
+        take_variant(0, limit, s2.clone(), sc2.clone(), ws.clone(), &ops, out);
+        out.push(-8);
+        take_variant(1, limit, s2, sc2, ws, &ops, out);
+    } else {
+        take_variant(variant, limit, s2, sc2, ws, &ops, out);
+    }
+}
+fn take_variant(variant: u64, limit: u64, s2: Vec<u8>, sc2: std::collections::VecDeque<(u64, u64, u64)>,
+                ws: std::collections::VecDeque<(u64, u64)>, ops: &[Op], out: &mut Vec<i128>) {
+    let mut rw = ScriptRW { r: ScriptReader::new(s2, sc2), w: ScriptWriter::new(ws) };
+    let rwc = std::cell::RefCell::new(&mut rw);
+    struct W<'a, 'b>(&'a std::cell::RefCell<&'b mut ScriptRW>);
+    impl<'a, 'b> Read for W<'a, 'b> {
+        fn read(&mut self, d: &mut [u8]) -> std::io::Result<usize> {
+            self.0.borrow_mut().read(d)
+        }
+    }
+    impl<'a, 'b> Write for W<'a, 'b> {
+        fn write(&mut self, d: &[u8]) -> std::io::Result<usize> {
+            self.0.borrow_mut().write(d)
+        }
+        fn flush(&mut self) -> std::io::Result<()> {
+            self.0.borrow_mut().flush()
+        }
+    }
+    let mut w = W(&rwc);
+    let clear = || {
+        rwc.borrow_mut().r.log.clear();
+        rwc.borrow_mut().w.log.clear();
+    };
+    if variant == 0 {
+        let mut take = ReadWriteTake::new(&mut w, limit);
+        for op in ops {
+            clear();
+            out.push(MOP);
+            match op {
+                Op::Read(k) => {
+                    let mut d = vec![0xDDu8; *k];
+                    let r = std::panic::catch_unwind(std::panic::AssertUnwindSafe(|| take.read(&mut d)));
+                    match r {
+                        Ok(q) => {
+                            enc_io_usize(out, &q);
+                            enc_bytes(out, &d);
+                        }
+                        Err(_) => out.push(PANIC),
+                    }
+                }
+                Op::Write(data) => {
+                    let r = std::panic::catch_unwind(std::panic::AssertUnwindSafe(|| take.write(data)));
+                    match r {
+                        Ok(q) => enc_io_usize(out, &q),
+                        Err(_) => out.push(PANIC),
+                    }
+                }
+                Op::Flush => {
+                    let r = std::panic::catch_unwind(std::panic::AssertUnwindSafe(|| take.flush()));
+                    match r {
+                        Ok(q) => enc_unit(out, &q),
+                        Err(_) => out.push(PANIC),
+                    }
+                }
+            }
+            let rb = rwc.borrow();
+            tail_obs(out, None, &**rb);
+        }
+    } else {
+        let mut take = Read::take(&mut w, limit);
+        for op in ops {
+            let k = match op { Op::Read(k) => k, _ => continue };
+            clear();
+            out.push(MOP);
+            {
+                let mut d = vec![0xDDu8; *k];
+                let r = std::panic::catch_unwind(std::panic::AssertUnwindSafe(|| take.read(&mut d)));
+                match r {
+                    Ok(q) => {
+                        enc_io_usize(out, &q);
+                        enc_bytes(out, &d);
+                    }
+                    Err(_) => out.push(PANIC),
+                }
+            }
+            let rb = rwc.borrow();
+            tail_obs(out, None, &**rb);
+        }
+    }
+}
